@@ -177,6 +177,9 @@ FIXED = [
         vars_ += 1
     return (vars_,)
 ''', [A, B])),
+ ('C04', 'nested-conditional-expression-native', '97e2f5a',
+  "a conditional expression nested in the test or a branch of another one stayed native (visit_IfExp did not visit children)",
+  'C04MATRIX'),
 ]
 
 OPEN = []
@@ -184,6 +187,10 @@ OPEN = []
 def main():
   out = []
   for prop, key, commit, what, wit in FIXED:
+    if wit == 'C04MATRIX':
+      from vf.props import c04
+      wit = {'src': c04.header() + c04.matrix_program('r = T("res", (b if a > 0 else (c if b > 0 else a)))\nr = (b if (c if a > 0 else b) > 0 else a)'),
+             'mode': 'to_graph', 'feats': []}
     out.append({'property': prop, 'key': key, 'status': 'fixed', 'commit': commit, 'what': what,
                 'line': 'fixed: property=%s %s %s' % (prop, commit, what), 'witness': wit})
   for e in OPEN:
